@@ -434,11 +434,14 @@ class SymBackend(BackendBase):
         return shadow.pvc_len(x)
 
     # -- obligations
-    def check(self, name, cond, extra_hyps=(), facts=()):
+    def check(self, name, cond, extra_hyps=(), facts=(), kind="post", msg=None):
         cond = raw(core.lift_bool(cond)) if not isinstance(cond, bool) else cond
         hy = [raw(h) for h in extra_hyps]
         hy = [h for h in hy if core._bconst(h) is not True]
-        ob = core.Obligation(name, self.c.hyps() + hy, zb(cond), "post", {"facts": list(facts)} if facts else None)
+        info = {"facts": list(facts)} if facts else None
+        if msg is not None:
+            info = dict(info or {}, msg=msg)
+        ob = core.Obligation(name, self.c.hyps() + hy, zb(cond), kind, info)
         self.c.obligations.append(ob)
 
     def skolems(self, shape, base="i"):
@@ -743,7 +746,7 @@ class ConcreteBackend(BackendBase):
     def length(self, x):
         return len(x)
 
-    def check(self, name, cond, extra_hyps=()):
+    def check(self, name, cond, extra_hyps=(), facts=(), kind="post", msg=None):
         self.checked += 1
         if not bool(cond):
             self.failures.append(name)
